@@ -310,7 +310,7 @@ def sig_of_replay(v):
 # ------------------------------------------------------------------------------------------------ traces
 TRACE_CFG = 'SPECIFICATION TraceSpec\n%(common)s' \
             'INVARIANTS QueuedOnceInItsPool PendingIffQueued NamedNodeObeyed SelectionInRange PreferInserting OneLoopPerWorker RunImpliesInit%(extra)s\n' \
-            'CONSTRAINT Accept\n%%(diag)sCHECK_DEADLOCK FALSE\n'
+            'CONSTRAINT Accept\nVIEW TraceView\n%%(diag)sCHECK_DEADLOCK FALSE\n'
 
 
 def traces(binp, q, tier, seed):
